@@ -1,8 +1,455 @@
 (* Proofs about model/Base64url.v and model/Jwt.v (property C09). *)
-From Coq Require Import List NArith ZArith Bool Lia.
-From Tink Require Import Bytes Base64url Jwt.
+From Coq Require Import List NArith ZArith Bool Lia ZifyN ZifyNat ZifyBool.
+From Tink Require Import Bytes Base64url Jwt JwtSpec.
 Import ListNotations.
 Open Scope N_scope.
+
+Ltac Zify.zify_post_hook ::= Z.div_mod_to_equations.
+
+(* ================= base64url ================= *)
+
+Lemma b64_val_char v : v < 64 -> b64_val (b64_char v) = Some v.
+Proof.
+  intros H. unfold b64_char, b64_val.
+  destruct (v <? 26) eqn:E1.
+  { replace ((65 <=? v + 65) && (v + 65 <=? 90)) with true by lia. f_equal. lia. }
+  destruct (v <? 52) eqn:E2.
+  { replace ((65 <=? v - 26 + 97) && (v - 26 + 97 <=? 90)) with false by lia.
+    replace ((97 <=? v - 26 + 97) && (v - 26 + 97 <=? 122)) with true by lia. f_equal. lia. }
+  destruct (v <? 62) eqn:E3.
+  { replace ((65 <=? v - 52 + 48) && (v - 52 + 48 <=? 90)) with false by lia.
+    replace ((97 <=? v - 52 + 48) && (v - 52 + 48 <=? 122)) with false by lia.
+    replace ((48 <=? v - 52 + 48) && (v - 52 + 48 <=? 57)) with true by lia. f_equal. lia. }
+  destruct (v =? 62) eqn:E4.
+  { simpl. f_equal. lia. }
+  simpl. f_equal. lia.
+Qed.
+
+Lemma b64_char_val c v : b64_val c = Some v -> b64_char v = c /\ v < 64.
+Proof.
+  unfold b64_val, b64_char.
+  destruct ((65 <=? c) && (c <=? 90)) eqn:E1.
+  { intros H; inversion H; subst. replace (c - 65 <? 26) with true by lia. lia. }
+  destruct ((97 <=? c) && (c <=? 122)) eqn:E2.
+  { intros H; inversion H; subst. replace (c - 97 + 26 <? 26) with false by lia.
+    replace (c - 97 + 26 <? 52) with true by lia. lia. }
+  destruct ((48 <=? c) && (c <=? 57)) eqn:E3.
+  { intros H; inversion H; subst. replace (c - 48 + 52 <? 26) with false by lia.
+    replace (c - 48 + 52 <? 52) with false by lia. replace (c - 48 + 52 <? 62) with true by lia. lia. }
+  destruct (c =? 45) eqn:E4.
+  { intros H; inversion H; subst. simpl. lia. }
+  destruct (c =? 95) eqn:E5.
+  { intros H; inversion H; subst. simpl. lia. }
+  discriminate.
+Qed.
+
+(* every produced character is in the alphabet; in particular never '.' *)
+Lemma b64_char_alphabet v : b64_val (b64_char v) <> None.
+Proof.
+  unfold b64_char.
+  destruct (v <? 26) eqn:E1; [|destruct (v <? 52) eqn:E2; [|destruct (v <? 62) eqn:E3; [|destruct (v =? 62) eqn:E4]]].
+  - unfold b64_val. replace ((65 <=? v + 65) && (v + 65 <=? 90)) with true by lia. discriminate.
+  - unfold b64_val. replace ((65 <=? v - 26 + 97) && (v - 26 + 97 <=? 90)) with false by lia.
+    replace ((97 <=? v - 26 + 97) && (v - 26 + 97 <=? 122)) with true by lia. discriminate.
+  - unfold b64_val. replace ((65 <=? v - 52 + 48) && (v - 52 + 48 <=? 90)) with false by lia.
+    replace ((97 <=? v - 52 + 48) && (v - 52 + 48 <=? 122)) with false by lia.
+    replace ((48 <=? v - 52 + 48) && (v - 52 + 48 <=? 57)) with true by lia. discriminate.
+  - discriminate.
+  - discriminate.
+Qed.
+
+Lemma b64_val_dot : b64_val dot = None.
+Proof. reflexivity. Qed.
+
+(* induction three bytes at a time *)
+Lemma list_ind3 (A : Type) (P : list A -> Prop) :
+  P [] -> (forall x, P [x]) -> (forall x y, P [x; y]) ->
+  (forall x y z t, P t -> P (x :: y :: z :: t)) -> forall l, P l.
+Proof.
+  intros H0 H1 H2 H3.
+  fix IH 1. intros [|x [|y [|z t]]]; [exact H0 | apply H1 | apply H2 | apply H3; apply IH].
+Qed.
+
+Lemma list_ind4 (A : Type) (P : list A -> Prop) :
+  P [] -> (forall x, P [x]) -> (forall x y, P [x; y]) -> (forall x y z, P [x; y; z]) ->
+  (forall x y z w t, P t -> P (x :: y :: z :: w :: t)) -> forall l, P l.
+Proof.
+  intros H0 H1 H2 H3 H4.
+  fix IH 1. intros [|x [|y [|z [|w t]]]]; [exact H0 | apply H1 | apply H2 | apply H3 | apply H4; apply IH].
+Qed.
+
+Lemma wfb_cons x t : wfb (x :: t) <-> x < 256 /\ wfb t.
+Proof. unfold wfb. split; intros H; [inversion H; auto | constructor; tauto]. Qed.
+
+(* decode (encode x) = x for every byte string *)
+Lemma b64_decode_encode x : wfb x -> b64_decode (b64_encode x) = Some x.
+Proof.
+  unfold b64_decode.
+  induction x as [|a|a b|a b c t IH] using list_ind3; intros W.
+  - reflexivity.
+  - apply wfb_cons in W. destruct W as [Ha _].
+    cbn [b64_encode map_opt]. rewrite !b64_val_char by lia.
+    cbn [b64_decode_vals]. do 2 f_equal. lia.
+  - apply wfb_cons in W. destruct W as [Ha W]. apply wfb_cons in W. destruct W as [Hb _].
+    cbn [b64_encode map_opt]. rewrite !b64_val_char by lia.
+    cbn [b64_decode_vals]. f_equal. f_equal; [lia|]. f_equal. lia.
+  - apply wfb_cons in W. destruct W as [Ha W]. apply wfb_cons in W. destruct W as [Hb W].
+    apply wfb_cons in W. destruct W as [Hc W].
+    specialize (IH W).
+    cbn [b64_encode map_opt]. rewrite !b64_val_char by lia.
+    destruct (map_opt b64_val (b64_encode t)) as [vs|]; [|discriminate].
+    cbn [b64_decode_vals]. rewrite IH. f_equal. f_equal; [lia|]. f_equal; [lia|]. f_equal. lia.
+Qed.
+
+Lemma map_opt_Forall {A B} (f : A -> option B) l :
+  map_opt f l <> None <-> Forall (fun x => f x <> None) l.
+Proof.
+  induction l as [|x l IH]; simpl.
+  - split; [constructor | discriminate].
+  - destruct (f x) eqn:E.
+    + destruct (map_opt f l) eqn:E2.
+      * split; [intros _; constructor; [congruence | apply IH; discriminate] | discriminate].
+      * split; [congruence|]. intros H. inversion H; subst. apply IH in H3. congruence.
+    + split; [congruence|]. intros H. inversion H; subst. congruence.
+Qed.
+
+Lemma map_opt_length {A B} (f : A -> option B) l r : map_opt f l = Some r -> length r = length l.
+Proof.
+  revert r; induction l as [|x l IH]; simpl; intros r H.
+  - inversion H; reflexivity.
+  - destruct (f x); [|discriminate]. destruct (map_opt f l); [|discriminate].
+    inversion H; subst. simpl. f_equal. apply IH. reflexivity.
+Qed.
+
+Lemma b64_decode_vals_ok v : b64_decode_vals v <> None <-> (length v mod 4 <> 1)%nat.
+Proof.
+  induction v as [|a|a b|a b c|a b c d t IH] using list_ind4.
+  - simpl. split; [intros _; discriminate | discriminate].
+  - simpl. split; [congruence | intros H; exfalso; apply H; reflexivity].
+  - simpl. split; [intros _; discriminate | discriminate].
+  - simpl. split; [intros _; discriminate | discriminate].
+  - cbn [b64_decode_vals].
+    replace (length (a :: b :: c :: d :: t) mod 4)%nat with (length t mod 4)%nat.
+    + destruct (b64_decode_vals t); split; intros H; try discriminate; try congruence.
+      * apply IH. discriminate.
+      * apply IH in H. congruence.
+    + cbn [length]. replace (S (S (S (S (length t))))) with (length t + 1 * 4)%nat by lia.
+      rewrite Nat.mod_add by lia. reflexivity.
+Qed.
+
+(* the exact set of strings b64_decode accepts: alphabet only, length mod 4 <> 1
+   (so: no padding, no whitespace, and NON-canonical trailing bits accepted) *)
+Lemma b64_decode_accepts s :
+  b64_decode s <> None <->
+  Forall (fun c => b64_val c <> None) s /\ (length s mod 4 <> 1)%nat.
+Proof.
+  unfold b64_decode. destruct (map_opt b64_val s) as [v|] eqn:E.
+  - rewrite b64_decode_vals_ok. rewrite (map_opt_length _ _ _ E).
+    split; [intros H; split; auto; apply map_opt_Forall; congruence | tauto].
+  - split; [congruence|]. intros [H _]. apply map_opt_Forall in H. congruence.
+Qed.
+
+Lemma b64_decode_nodot s x : b64_decode s = Some x -> nodot s.
+Proof.
+  intros H Hin.
+  assert (A : b64_decode s <> None) by congruence.
+  apply b64_decode_accepts in A. destruct A as [A _].
+  rewrite Forall_forall in A. apply (A _ Hin). apply b64_val_dot.
+Qed.
+
+Lemma b64_encode_alphabet x : Forall (fun c => b64_val c <> None) (b64_encode x).
+Proof.
+  induction x as [|a|a b|a b c t IH] using list_ind3; cbn [b64_encode];
+    repeat constructor; auto using b64_char_alphabet.
+Qed.
+
+Lemma b64_encode_nodot x : nodot (b64_encode x).
+Proof.
+  intros Hin. pose proof (b64_encode_alphabet x) as A. rewrite Forall_forall in A.
+  apply (A _ Hin). apply b64_val_dot.
+Qed.
+
+Lemma b64_encode_injective x y : wfb x -> wfb y -> b64_encode x = b64_encode y -> x = y.
+Proof.
+  intros Wx Wy H. apply b64_decode_encode in Wx. apply b64_decode_encode in Wy.
+  rewrite H in Wx. congruence.
+Qed.
+
+(* non-canonical encodings are accepted: "QQ" and "QR" both decode to "A" *)
+Lemma b64_noncanonical_accepted :
+  b64_decode [81; 81] = Some [65] /\ b64_decode [81; 82] = Some [65] /\ b64_encode [65] = [81; 81].
+Proof. repeat split; reflexivity. Qed.
+
+(* decoded bytes are bytes *)
+Lemma b64_decode_vals_wf v x :
+  Forall (fun a => a < 64) v -> b64_decode_vals v = Some x -> wfb x.
+Proof.
+  revert x. induction v as [|a|a b|a b c|a b c d t IH] using list_ind4; intros x F H.
+  - inversion H; constructor.
+  - discriminate.
+  - inversion H; subst. inversion F as [|? ? Ha F1]; subst. inversion F1 as [|? ? Hb F2]; subst.
+    repeat constructor. lia.
+  - inversion H; subst. inversion F as [|? ? Ha F1]; subst. inversion F1 as [|? ? Hb F2]; subst.
+    inversion F2 as [|? ? Hc F3]; subst. repeat constructor; lia.
+  - cbn [b64_decode_vals] in H. destruct (b64_decode_vals t) as [r|] eqn:E; [|discriminate].
+    inversion H; subst. inversion F as [|? ? Ha F1]; subst. inversion F1 as [|? ? Hb F2]; subst.
+    inversion F2 as [|? ? Hc F3]; subst. inversion F3 as [|? ? Hd F4]; subst.
+    repeat (apply Forall_cons); try lia. apply IH; auto.
+Qed.
+
+Lemma map_opt_b64_val_range s v : map_opt b64_val s = Some v -> Forall (fun a => a < 64) v.
+Proof.
+  revert v; induction s as [|c s IH]; simpl; intros v H.
+  - inversion H; constructor.
+  - destruct (b64_val c) eqn:E; [|discriminate]. destruct (map_opt b64_val s); [|discriminate].
+    inversion H; subst. constructor; [apply (b64_char_val _ _ E) | apply IH; reflexivity].
+Qed.
+
+Lemma b64_decode_wf s x : b64_decode s = Some x -> wfb x.
+Proof.
+  unfold b64_decode. destruct (map_opt b64_val s) eqn:E; [|discriminate].
+  apply b64_decode_vals_wf. eapply map_opt_b64_val_range; eauto.
+Qed.
+
+(* ================= compact serialization ================= *)
+
+Lemma split_last_none s : split_last s = None <-> nodot s.
+Proof.
+  unfold nodot. induction s as [|c t IH]; simpl.
+  - tauto.
+  - destruct (split_last t) as [[a b]|] eqn:E.
+    + split; [discriminate|]. intros H. exfalso. apply H. right.
+      destruct (in_dec N.eq_dec dot t) as [I|I]; auto. apply IH in I. discriminate.
+    + destruct (c =? dot) eqn:Ec.
+      * split; [discriminate|]. intros H. exfalso. apply H. left. apply N.eqb_eq in Ec. auto.
+      * split; [|reflexivity]. intros _ [H|H]; [apply N.eqb_neq in Ec; auto | apply IH in H; auto].
+Qed.
+
+Lemma split_last_spec s a b : split_last s = Some (a, b) <-> s = a ++ dot :: b /\ nodot b.
+Proof.
+  split.
+  - revert a. induction s as [|c t IH]; simpl; intros a H; [discriminate|].
+    destruct (split_last t) as [[a' b']|] eqn:E.
+    + inversion H; subst. destruct (IH a' eq_refl) as [-> Hn]. split; auto.
+    + destruct (c =? dot) eqn:Ec; [|discriminate]. inversion H; subst.
+      apply N.eqb_eq in Ec. subst. split; auto. apply split_last_none. exact E.
+  - intros [-> Hn]. induction a as [|c a IH]; simpl.
+    + apply split_last_none in Hn. rewrite Hn. reflexivity.
+    + rewrite IH. reflexivity.
+Qed.
+
+Lemma split_dots_nonempty s : split_dots s <> [].
+Proof.
+  destruct s as [|c t]; simpl; [discriminate|].
+  destruct (c =? dot); [discriminate|]. destruct (split_dots t); discriminate.
+Qed.
+
+Lemma split_dots_nodot s : nodot s -> split_dots s = [s].
+Proof.
+  unfold nodot. induction s as [|c t IH]; simpl; intros H; [reflexivity|].
+  destruct (c =? dot) eqn:Ec.
+  - apply N.eqb_eq in Ec. exfalso. apply H. auto.
+  - rewrite IH by tauto. reflexivity.
+Qed.
+
+Lemma split_dots_app h t : nodot h -> split_dots (h ++ dot :: t) = h :: split_dots t.
+Proof.
+  unfold nodot. induction h as [|c h IH]; simpl; intros H.
+  - reflexivity.
+  - destruct (c =? dot) eqn:Ec.
+    + apply N.eqb_eq in Ec. exfalso. apply H. auto.
+    + rewrite IH by tauto. reflexivity.
+Qed.
+
+Lemma split_dots_one t p : split_dots t = [p] -> t = p /\ nodot p.
+Proof.
+  unfold nodot. revert p. induction t as [|c t IH]; simpl; intros p H.
+  - inversion H; subst. split; auto.
+  - destruct (c =? dot) eqn:Ec.
+    + inversion H. exfalso. eapply split_dots_nonempty; eauto.
+    + destruct (split_dots t) as [|q r] eqn:E.
+      * exfalso. eapply split_dots_nonempty; eauto.
+      * inversion H; subst. destruct (IH q eq_refl) as [-> Hn]. split; auto.
+        intros [I|I]; [apply N.eqb_neq in Ec; auto | auto].
+Qed.
+
+Lemma split_dots_two u h p :
+  split_dots u = [h; p] <-> u = h ++ dot :: p /\ nodot h /\ nodot p.
+Proof.
+  split.
+  - revert h. induction u as [|c t IH]; simpl; intros h H; [discriminate|].
+    destruct (c =? dot) eqn:Ec.
+    + inversion H; subst. apply N.eqb_eq in Ec. subst c.
+      destruct (split_dots_one _ _ H2) as [-> Hn]. repeat split; auto. intros [].
+    + destruct (split_dots t) as [|q r] eqn:E; [discriminate|].
+      inversion H; subst. destruct (IH q eq_refl) as [-> [Hq Hp]]. repeat split; auto.
+      intros [I|I]; [apply N.eqb_neq in Ec; auto | apply Hq; auto].
+  - intros [-> [Hh Hp]]. rewrite split_dots_app by auto. rewrite split_dots_nodot by auto. reflexivity.
+Qed.
+
+Lemma split_dots_count u : length (split_dots u) = S (count_dots u).
+Proof.
+  induction u as [|c t IH]; simpl; [reflexivity|].
+  destruct (c =? dot); simpl; [rewrite IH; reflexivity|].
+  destruct (split_dots t) eqn:E; simpl in *; [discriminate|]. exact IH.
+Qed.
+
+Lemma count_dots_app a b : count_dots (a ++ b) = (count_dots a + count_dots b)%nat.
+Proof. induction a as [|c a IH]; simpl; auto. destruct (c =? dot); simpl; rewrite IH; reflexivity. Qed.
+
+Lemma count_dots_nodot s : nodot s -> count_dots s = O.
+Proof.
+  unfold nodot. induction s as [|c t IH]; simpl; intros H; auto.
+  destruct (c =? dot) eqn:Ec; [apply N.eqb_eq in Ec; exfalso; apply H; auto | apply IH; tauto].
+Qed.
+
+Lemma split_signed_spec tok sg u :
+  split_signed tok = Some (sg, u) <->
+  exists s, tok = u ++ dot :: s /\ nodot s /\ b64_decode s = Some sg /\ sg <> [] /\ count_dots u = 1%nat.
+Proof.
+  unfold split_signed. split.
+  - destruct (split_last tok) as [[u' s]|] eqn:E; [|discriminate].
+    apply split_last_spec in E. destruct E as [-> Hn].
+    destruct (b64_decode s) as [sg'|] eqn:Ed; [|discriminate].
+    destruct sg' as [|x sg']; [discriminate|]. destruct u' as [|y u']; [discriminate|].
+    destruct (Nat.eqb (count_dots (y :: u')) 1) eqn:Ec; [|discriminate].
+    intros H; inversion H; subst. exists s. repeat split; auto; [discriminate | apply Nat.eqb_eq; auto].
+  - intros [s [-> [Hn [Hd [Hs Hc]]]]].
+    assert (E : split_last (u ++ dot :: s) = Some (u, s)) by (apply split_last_spec; auto).
+    rewrite E, Hd. destruct sg as [|x sg]; [congruence|].
+    destruct u as [|y u]; [discriminate|]. rewrite Hc. reflexivity.
+Qed.
+
+(* ================= lookups and reflection of the rules ================= *)
+
+Lemma lookup_In k f v : lookup k f = Some v -> In (k, v) f.
+Proof.
+  induction f as [|[k' v'] f IH]; simpl; [discriminate|].
+  destruct (beq k k') eqn:E.
+  - intros H; inversion H; subst. apply beq_eq in E. subst. auto.
+  - auto.
+Qed.
+
+Lemma has_lookup k f : has k f = true <-> lookup k f <> None.
+Proof. unfold has, is_some. destruct (lookup k f); split; congruence. Qed.
+
+Lemma has_false k f : has k f = false <-> lookup k f = None.
+Proof. unfold has, is_some. destruct (lookup k f); split; congruence. Qed.
+
+Lemma beq_false a b : beq a b = false <-> a <> b.
+Proof.
+  split; intros H.
+  - intros ->. rewrite beq_refl in H. discriminate.
+  - destruct (beq a b) eqn:E; auto. apply beq_eq in E. contradiction.
+Qed.
+
+Lemma extract_typ_spec hdr typ : extract_typ hdr = Some typ <-> typ_rule hdr typ.
+Proof.
+  unfold extract_typ, typ_rule.
+  destruct (lookup s_typ hdr) as [[| | | s | |]|]; destruct typ; split; intros H; try congruence.
+Qed.
+
+Lemma validate_header_spec k hdr :
+  validate_header hdr (kalg k) (fst (kid_args (kkid k))) (snd (kid_args (kkid k))) = true
+  <-> header_rule k hdr.
+Proof.
+  unfold validate_header, header_rule, header_string, validate_kid, header_string.
+  destruct (lookup s_alg hdr) as [[| | | a | |]|] eqn:Ea;
+    try (split; [discriminate | intros [H _]; discriminate]).
+  destruct (beq a (kalg k)) eqn:Eb; simpl.
+  2:{ split; [discriminate|]. intros [H _]. inversion H; subst. rewrite beq_refl in Eb. discriminate. }
+  apply beq_eq in Eb. subst a.
+  destruct (has s_crit hdr) eqn:Ec.
+  { split; [discriminate|]. intros [_ [H _]]. apply has_lookup in Ec. contradiction. }
+  apply has_false in Ec.
+  destruct (kkid k) as [id|c|]; simpl.
+  - destruct (has s_kid hdr) eqn:Ek.
+    + destruct (lookup s_kid hdr) as [[| | | s | |]|] eqn:El;
+        try (split; [discriminate | intros [_ [_ H]]; discriminate]).
+      split.
+      * intros H. apply beq_eq in H. subst. auto.
+      * intros [_ [_ H]]. inversion H; subst. apply beq_refl.
+    + apply has_false in Ek. split; [discriminate|]. intros [_ [_ H]]. congruence.
+  - destruct (has s_kid hdr) eqn:Ek.
+    + apply has_lookup in Ek.
+      destruct (lookup s_kid hdr) as [[| | | s | |]|] eqn:El; try congruence;
+        try (split; [discriminate | intros [_ [_ [H|H]]]; discriminate]).
+      split.
+      * intros H. apply beq_eq in H. subst. auto.
+      * intros [_ [_ [H|H]]]; [discriminate|]. inversion H; subst. apply beq_refl.
+    + apply has_false in Ek. split; auto.
+  - split; auto.
+Qed.
+
+Lemma valid_str_spec j : valid_str j = true <-> is_utf8_string j.
+Proof.
+  unfold valid_str, is_utf8_string. destruct j; split; intros H; try discriminate;
+    try (destruct H as [s0 [H _]]; discriminate).
+  - exists s; auto.
+  - destruct H as [s0 [H U]]. inversion H; subst. auto.
+Qed.
+
+Lemma valid_time_spec j :
+  valid_time j = true <-> exists t r, j = JNum t r /\ (0 <= t <= ts_max)%Z.
+Proof.
+  unfold valid_time. destruct j; split; intros H; try discriminate;
+    try (destruct H as [t0 [r0 [H _]]]; discriminate).
+  - exists t, repr. split; auto. lia.
+  - destruct H as [t0 [r0 [H R]]]. inversion H; subst. lia.
+Qed.
+
+Lemma valid_aud_spec a :
+  valid_aud a = true <->
+  is_utf8_string a \/ exists l, a = JArr l /\ l <> [] /\ forall e, In e l -> is_utf8_string e.
+Proof.
+  unfold valid_aud. destruct a as [| | | s | l |];
+    try (split; [discriminate | intros [[s0 [H _]]|[l0 [H _]]]; discriminate]).
+  - rewrite <- (valid_str_spec (JStr s)). simpl. split; auto. intros [H|[l0 [H _]]]; [auto|discriminate].
+  - split.
+    + intros H. right. exists l. destruct l as [|e l]; [discriminate|].
+      repeat split; [discriminate|]. intros e0 He. apply valid_str_spec.
+      rewrite forallb_forall in H. auto.
+    + intros [[s0 [H _]]|[l0 [H [Hne Hall]]]]; [discriminate|]. inversion H; subst l0.
+      destruct l as [|e l]; [congruence|]. apply forallb_forall. intros e0 He. apply valid_str_spec. auto.
+Qed.
+
+Lemma is_str_claim_spec k : is_str_claim k = true <-> In k [s_iss; s_sub; s_jti].
+Proof.
+  unfold is_str_claim. rewrite !orb_true_iff, !beq_eq. simpl. intuition congruence.
+Qed.
+
+Lemma is_time_claim_spec k : is_time_claim k = true <-> In k [s_exp; s_nbf; s_iat].
+Proof.
+  unfold is_time_claim. rewrite !orb_true_iff, !beq_eq. simpl. intuition congruence.
+Qed.
+
+Lemma validate_payload_spec pl : validate_payload pl = true <-> payload_rule pl.
+Proof.
+  unfold validate_payload, payload_rule. rewrite andb_true_iff, forallb_forall. split.
+  - intros [Ha Hf]. repeat split.
+    + intros k v Hin Hk. specialize (Hf _ Hin). simpl in Hf. apply andb_true_iff in Hf. destruct Hf as [_ Hs].
+      apply is_str_claim_spec in Hk. rewrite Hk in Hs. apply valid_str_spec. auto.
+    + intros k v Hin Hk. specialize (Hf _ Hin). simpl in Hf. apply andb_true_iff in Hf. destruct Hf as [Ht _].
+      apply is_time_claim_spec in Hk. rewrite Hk in Ht. apply valid_time_spec. auto.
+    + intros a Hl. rewrite Hl in Ha. apply valid_aud_spec. auto.
+  - intros [Hs [Ht Ha]]. split.
+    + destruct (lookup s_aud pl) as [a|] eqn:E; auto. apply valid_aud_spec. auto.
+    + intros [k v] Hin. simpl. apply andb_true_iff. split.
+      * destruct (is_time_claim k) eqn:E; auto. apply valid_time_spec. apply (Ht k v Hin). apply is_time_claim_spec. auto.
+      * destruct (is_str_claim k) eqn:E; auto. apply valid_str_spec. apply (Hs k v Hin). apply is_str_claim_spec. auto.
+Qed.
+
+Lemma new_validator_spec o v : new_validator o = Some v <-> options_rule o v.
+Proof.
+  unfold new_validator, options_rule, is_some.
+  destruct (o_auds o) as [das|], (o_aud o) as [a|], (o_typ o) as [t|], (o_iss o) as [i|],
+    (o_ign_typ o), (o_ign_iss o), (o_ign_aud o); simpl;
+    try (split; [discriminate | intros H; exfalso; intuition congruence]);
+    (destruct (o_skew o >? max_skew_ns)%Z eqn:Es;
+     [split; [discriminate | intros H; exfalso; intuition lia]
+     | split; [intros H; inversion H; subst; repeat split; try (intuition congruence); lia
+              | intros H; f_equal; symmetry; intuition]]).
+Qed.
 
 (* validateFieldPresence: the full truth table *)
 Lemma field_presence_table :
@@ -15,3 +462,612 @@ Lemma field_presence_table :
          | _, _ => None
          end.
 Proof. intros [] [] []; reflexivity. Qed.
+
+Lemma payload_time_claim pl k j :
+  payload_rule pl -> In k [s_exp; s_nbf; s_iat] -> lookup k pl = Some j ->
+  exists t r, j = JNum t r /\ (0 <= t <= ts_max)%Z.
+Proof. intros [_ [Ht _]] Hk Hl. apply lookup_In in Hl. eauto. Qed.
+
+Lemma payload_str_claim pl k j :
+  payload_rule pl -> In k [s_iss; s_sub; s_jti] -> lookup k pl = Some j -> is_utf8_string j.
+Proof. intros [Hs _] Hk Hl. apply lookup_In in Hl. eauto. Qed.
+
+Lemma exp_ok_spec v pl : payload_rule pl ->
+  (exp_ok v pl = true <->
+   (lookup s_exp pl = None -> o_allow_noexp v = true)
+   /\ (forall t r, lookup s_exp pl = Some (JNum t r) -> (ns t > o_now v - o_skew v)%Z)).
+Proof.
+  intros P. unfold exp_ok. destruct (lookup s_exp pl) as [j|] eqn:E.
+  - destruct (payload_time_claim pl s_exp j P (or_introl eq_refl) E) as [t [r [-> _]]].
+    split.
+    + intros H. split; [discriminate|]. intros t0 r0 H0. inversion H0; subst. lia.
+    + intros [_ H]. specialize (H t r eq_refl). lia.
+  - split; [intros H; split; auto; discriminate | intros [H _]; auto].
+Qed.
+
+Lemma nbf_ok_spec v pl : payload_rule pl ->
+  (nbf_ok v pl = true <->
+   forall t r, lookup s_nbf pl = Some (JNum t r) -> (ns t <= o_now v + o_skew v)%Z).
+Proof.
+  intros P. unfold nbf_ok. destruct (lookup s_nbf pl) as [j|] eqn:E.
+  - destruct (payload_time_claim pl s_nbf j P (or_intror (or_introl eq_refl)) E) as [t [r [-> _]]].
+    split.
+    + intros H t0 r0 H0. inversion H0; subst. lia.
+    + intros H. specialize (H t r eq_refl). lia.
+  - split; [discriminate | reflexivity].
+Qed.
+
+Lemma iat_ok_spec v pl : payload_rule pl ->
+  (iat_ok v pl = true <->
+   (o_iat_past v = true ->
+    exists t r, lookup s_iat pl = Some (JNum t r) /\ (ns t <= o_now v + o_skew v)%Z)).
+Proof.
+  intros P. unfold iat_ok. destruct (o_iat_past v).
+  - destruct (lookup s_iat pl) as [j|] eqn:E.
+    + destruct (payload_time_claim pl s_iat j P (or_intror (or_intror (or_introl eq_refl))) E) as [t [r [-> _]]].
+      split.
+      * intros H _. exists t, r. split; auto. lia.
+      * intros H. destruct (H eq_refl) as [t0 [r0 [H0 H1]]]. inversion H0; subst. lia.
+    + split; [discriminate|]. intros H. destruct (H eq_refl) as [t0 [r0 [H0 _]]]. discriminate.
+  - split; [discriminate | reflexivity].
+Qed.
+
+Lemma validate_typ_spec v typ :
+  validate_typ v typ = true <->
+  presence_rule (o_ign_typ v) (o_typ v) (typ <> None) (fun e => typ = Some e).
+Proof.
+  unfold validate_typ, presence_rule. rewrite field_presence_table.
+  destruct (o_ign_typ v); [split; auto|].
+  destruct (o_typ v) as [e|], typ as [t|]; simpl.
+  - rewrite beq_eq. split.
+    + intros ->. right. split; auto. split; auto. discriminate.
+    + intros [H|[_ [_ H]]]; [discriminate | congruence].
+  - split; [discriminate|]. intros [H|[_ [H _]]]; [discriminate | congruence].
+  - split; [discriminate|]. intros [H|[_ H]]; [discriminate|]. exfalso. apply H. discriminate.
+  - split; [intros _; right; split; auto | auto].
+Qed.
+
+Lemma validate_iss_spec v pl : payload_rule pl ->
+  (validate_iss v pl = true <->
+   presence_rule (o_ign_iss v) (o_iss v) (lookup s_iss pl <> None)
+     (fun e => lookup s_iss pl = Some (JStr e))).
+Proof.
+  intros P. unfold validate_iss, presence_rule, has, claim_str. rewrite field_presence_table.
+  destruct (o_ign_iss v); [split; auto|].
+  destruct (lookup s_iss pl) as [j|] eqn:E.
+  - destruct (payload_str_claim pl s_iss j P (or_introl eq_refl) E) as [s [-> U]]; simpl.
+    rewrite U. destruct (o_iss v) as [e|]; simpl.
+    + rewrite beq_eq. split.
+      * intros ->. right. split; auto. split; auto. discriminate.
+      * intros [H|[_ [_ H]]]; [discriminate | congruence].
+    + split; [discriminate|]. intros [H|[_ H]]; [discriminate|]. exfalso. apply H. discriminate.
+  - simpl. destruct (o_iss v) as [e|]; simpl.
+    + split; [discriminate|]. intros [H|[_ [H _]]]; [discriminate | congruence].
+    + split; [intros _; right; split; auto | auto].
+Qed.
+
+Lemma existsb_beq_str e l :
+  (forall x, In x l -> is_utf8_string x) ->
+  (existsb (beq e) (map str_of l) = true <-> In (JStr e) l).
+Proof.
+  intros H. rewrite existsb_exists. split.
+  - intros [s [Hin Hb]]. apply beq_eq in Hb. subst s. apply in_map_iff in Hin.
+    destruct Hin as [j [Hj Hin]]. destruct (H j Hin) as [s [-> _]]. simpl in Hj. subst. exact Hin.
+  - intros Hin. exists e. split; [|apply beq_refl]. apply in_map_iff. exists (JStr e). auto.
+Qed.
+
+Lemma validate_aud_spec v pl : payload_rule pl ->
+  (validate_aud v pl = true <->
+   presence_rule (o_ign_aud v) (o_aud v) (lookup s_aud pl <> None)
+     (fun e => lookup s_aud pl = Some (JStr e)
+               \/ exists l, lookup s_aud pl = Some (JArr l) /\ In (JStr e) l)).
+Proof.
+  intros [_ [_ Pa]]. unfold validate_aud, presence_rule, has, audiences. rewrite field_presence_table.
+  destruct (o_ign_aud v); [split; auto|].
+  destruct (lookup s_aud pl) as [a|] eqn:E.
+  - destruct (Pa a eq_refl) as [[s [-> U]]|[l [-> [Hne Hall]]]]; simpl.
+    + rewrite U. destruct (o_aud v) as [e|]; simpl.
+      * rewrite orb_false_r, beq_eq. split.
+        -- intros ->. right. split; auto. split; [discriminate | auto].
+        -- intros [H|[_ [_ [H|[l [H _]]]]]]; try discriminate. congruence.
+      * split; [discriminate|]. intros [H|[_ H]]; [discriminate|]. exfalso. apply H. discriminate.
+    + assert (V : valid_aud (JArr l) = true).
+      { apply valid_aud_spec. right. exists l. auto. }
+      simpl in V. rewrite V. destruct (o_aud v) as [e|]; simpl.
+      * unfold aud_loop. destruct l as [|x l]; [congruence|].
+        cbn [map]. rewrite (existsb_beq_str e (x :: l) Hall). split.
+        -- intros H. right. split; auto. split; [discriminate|]. right. exists (x :: l). auto.
+        -- intros [H|[_ [_ [H|[l0 [H Hin]]]]]]; try discriminate. inversion H; subst. auto.
+      * split; [discriminate|]. intros [H|[_ H]]; [discriminate|]. exfalso. apply H. discriminate.
+  - simpl. destruct (o_aud v) as [e|]; simpl.
+    + split; [discriminate|]. intros [H|[_ [H _]]]; [discriminate | congruence].
+    + split; [intros _; right; split; auto | auto].
+Qed.
+
+Lemma validate_spec v typ pl : payload_rule pl ->
+  (validate v (mkRaw typ pl) = true <-> validator_rule v typ pl).
+Proof.
+  intros P. unfold validate, validate_timestamps, validator_rule. simpl.
+  rewrite !andb_true_iff, (exp_ok_spec v pl P), (nbf_ok_spec v pl P), (iat_ok_spec v pl P),
+    validate_typ_spec, (validate_aud_spec v pl P), (validate_iss_spec v pl P).
+  tauto.
+Qed.
+
+(* ================= the decision procedure equals the specification ================= *)
+
+Section VerifyProofs.
+  Variable sig_valid : N -> bytes -> bytes -> bool.
+  Variable json_parse : bytes -> option fields.
+
+  (* what a token determines independently of any key *)
+  Definition parse_token (tok : bytes) : option (bytes * bytes * fields * rawjwt) :=
+    match split_signed tok with
+    | None => None
+    | Some (sg, u) =>
+      match split_dots u with
+      | [h; p] =>
+        match b64_decode h with
+        | None => None
+        | Some hb =>
+          match json_parse hb with
+          | None => None
+          | Some hdr =>
+            match extract_typ hdr with
+            | None => None
+            | Some typ =>
+              match b64_decode p with
+              | None => None
+              | Some pb =>
+                match json_parse pb with
+                | None => None
+                | Some pl => if validate_payload pl then Some (sg, u, hdr, mkRaw typ pl) else None
+                end
+              end
+            end
+          end
+        end
+      | _ => None
+      end
+    end.
+
+  Lemma verify_key_parse k v tok r :
+    verify_key sig_valid json_parse k v tok = VOk r <->
+    exists sg u hdr,
+      parse_token tok = Some (sg, u, hdr, r)
+      /\ sig_valid (kref k) sg u = true
+      /\ validate_header hdr (kalg k) (fst (kid_args (kkid k))) (snd (kid_args (kkid k))) = true
+      /\ validate v r = true.
+  Proof.
+    unfold verify_key, parse_token, decode_unsigned.
+    destruct (split_signed tok) as [[sg u]|];
+      [|split; [discriminate | intros [? [? [? [H _]]]]; discriminate]].
+    destruct (split_dots u) as [|h [|p [|q l]]];
+      try (split; [destruct (sig_valid (kref k) sg u); discriminate | intros [? [? [? [H _]]]]; discriminate]).
+    destruct (b64_decode h) as [hb|];
+      [|split; [destruct (sig_valid (kref k) sg u); discriminate | intros [? [? [? [H _]]]]; discriminate]].
+    destruct (json_parse hb) as [hdr|];
+      [|split; [destruct (sig_valid (kref k) sg u); discriminate | intros [? [? [? [H _]]]]; discriminate]].
+    destruct (extract_typ hdr) as [typ|];
+      [|split; [destruct (sig_valid (kref k) sg u); [destruct (validate_header hdr (kalg k) (fst (kid_args (kkid k))) (snd (kid_args (kkid k))))|]; discriminate
+               | intros [? [? [? [H _]]]]; discriminate]].
+    destruct (b64_decode p) as [pb|];
+      [|split; [destruct (sig_valid (kref k) sg u); [destruct (validate_header hdr (kalg k) (fst (kid_args (kkid k))) (snd (kid_args (kkid k))))|]; discriminate
+               | intros [? [? [? [H _]]]]; discriminate]].
+    destruct (json_parse pb) as [pl|];
+      [|split; [destruct (sig_valid (kref k) sg u); [destruct (validate_header hdr (kalg k) (fst (kid_args (kkid k))) (snd (kid_args (kkid k))))|]; discriminate
+               | intros [? [? [? [H _]]]]; discriminate]].
+    destruct (validate_payload pl);
+      [|split; [destruct (sig_valid (kref k) sg u); [destruct (validate_header hdr (kalg k) (fst (kid_args (kkid k))) (snd (kid_args (kkid k))))|]; discriminate
+               | intros [? [? [? [H _]]]]; discriminate]].
+    split.
+    - destruct (sig_valid (kref k) sg u) eqn:Es; [|discriminate].
+      destruct (validate_header hdr (kalg k) _ _) eqn:Eh; [|discriminate].
+      destruct (validate v (mkRaw typ pl)) eqn:Ev; [|discriminate].
+      intros H; inversion H; subst. exists sg, u, hdr. auto.
+    - intros [sg' [u' [hdr' [H [Hs [Hh Hv]]]]]]. inversion H; subst.
+      rewrite Hs, Hh, Hv. reflexivity.
+  Qed.
+
+  Lemma app_dot_assoc (h p s : bytes) : (h ++ dot :: p) ++ dot :: s = h ++ dot :: p ++ dot :: s.
+  Proof. rewrite <- app_assoc. reflexivity. Qed.
+
+  Lemma parse_token_spec tok sg u hdr r :
+    parse_token tok = Some (sg, u, hdr, r) <->
+    exists h p s hb pb,
+      tok = h ++ dot :: p ++ dot :: s /\ nodot h /\ nodot p /\ nodot s
+      /\ u = h ++ dot :: p
+      /\ b64_decode s = Some sg /\ sg <> []
+      /\ b64_decode h = Some hb /\ json_parse hb = Some hdr
+      /\ b64_decode p = Some pb /\ json_parse pb = Some (r_payload r)
+      /\ typ_rule hdr (r_typ r) /\ payload_rule (r_payload r).
+  Proof.
+    unfold parse_token. split.
+    - destruct (split_signed tok) as [[sg' u']|] eqn:Es; [|discriminate].
+      apply split_signed_spec in Es. destruct Es as [s [-> [Hns [Hd [Hne Hc]]]]].
+      destruct (split_dots u') as [|h [|p [|q l]]] eqn:Ed; try discriminate.
+      apply split_dots_two in Ed. destruct Ed as [-> [Hnh Hnp]].
+      destruct (b64_decode h) as [hb|] eqn:Eh; [|discriminate].
+      destruct (json_parse hb) as [hdr'|] eqn:Ej; [|discriminate].
+      destruct (extract_typ hdr') as [typ|] eqn:Et; [|discriminate].
+      destruct (b64_decode p) as [pb|] eqn:Ep; [|discriminate].
+      destruct (json_parse pb) as [pl|] eqn:Ejp; [|discriminate].
+      destruct (validate_payload pl) eqn:Ev; [|discriminate].
+      intros H; inversion H; subst. exists h, p, s, hb, pb. simpl.
+      rewrite app_dot_assoc. repeat split; auto.
+      + apply extract_typ_spec. auto.
+      + apply validate_payload_spec; auto.
+      + apply validate_payload_spec; auto.
+      + apply validate_payload_spec; auto.
+    - intros [h [p [s [hb [pb [-> [Hnh [Hnp [Hns [-> [Hd [Hne [Eh [Ej [Ep [Ejp [Ht Hp]]]]]]]]]]]]]]]]].
+      assert (Es : split_signed (h ++ dot :: p ++ dot :: s) = Some (sg, h ++ dot :: p)).
+      { apply split_signed_spec. exists s. rewrite app_dot_assoc. repeat split; auto.
+        rewrite count_dots_app. change (count_dots (dot :: p)) with (S (count_dots p)).
+        rewrite (count_dots_nodot h Hnh), (count_dots_nodot p Hnp). reflexivity. }
+      rewrite Es.
+      assert (Ed : split_dots (h ++ dot :: p) = [h; p]) by (apply split_dots_two; auto).
+      rewrite Ed, Eh, Ej.
+      apply extract_typ_spec in Ht. rewrite Ht, Ep, Ejp.
+      apply validate_payload_spec in Hp. rewrite Hp. destruct r; reflexivity.
+  Qed.
+
+  (* one key: VOk r  <->  the token parses to r, and signature, header rule and
+     validator rules hold for this key *)
+  Lemma verify_key_spec k v tok r :
+    verify_key sig_valid json_parse k v tok = VOk r <->
+    exists h p s sg hb pb hdr,
+      tok = h ++ dot :: p ++ dot :: s /\ nodot h /\ nodot p /\ nodot s
+      /\ b64_decode s = Some sg /\ sg <> []
+      /\ b64_decode h = Some hb /\ json_parse hb = Some hdr
+      /\ b64_decode p = Some pb /\ json_parse pb = Some (r_payload r)
+      /\ sig_valid (kref k) sg (h ++ dot :: p) = true /\ header_rule k hdr
+      /\ typ_rule hdr (r_typ r) /\ payload_rule (r_payload r)
+      /\ validator_rule v (r_typ r) (r_payload r).
+  Proof.
+    rewrite verify_key_parse. split.
+    - intros [sg [u [hdr [Hp [Hs [Hh Hv]]]]]].
+      apply parse_token_spec in Hp.
+      destruct Hp as [h [p [s [hb [pb [-> [Hnh [Hnp [Hns [-> [Hd [Hne [Eh [Ej [Ep [Ejp [Ht Hpl]]]]]]]]]]]]]]]]].
+      assert (HR : header_rule k hdr) by (apply validate_header_spec; auto).
+      assert (VR : validator_rule v (r_typ r) (r_payload r)).
+      { destruct r as [typ pl]. apply (validate_spec v typ pl Hpl). auto. }
+      exists h, p, s, sg, hb, pb, hdr.
+      split; [reflexivity|]. do 9 (split; [assumption|]). split; [assumption|].
+      split; [assumption|]. split; [assumption|]. split; assumption.
+    - intros [h [p [s [sg [hb [pb [hdr [-> [Hnh [Hnp [Hns [Hd [Hne [Eh [Ej [Ep [Ejp [Hs [Hh [Ht [Hpl Hv]]]]]]]]]]]]]]]]]]]]].
+      exists sg, (h ++ dot :: p), hdr. split; [|split; [assumption|split]].
+      + apply parse_token_spec. exists h, p, s, hb, pb.
+        split; [reflexivity|]. do 3 (split; [assumption|]). split; [reflexivity|].
+        do 6 (split; [assumption|]). split; assumption.
+      + apply validate_header_spec; auto.
+      + destruct r as [typ pl]. apply (validate_spec v typ pl Hpl). auto.
+  Qed.
+
+  (* the result does not depend on which key accepted *)
+  Lemma verify_key_deterministic k1 k2 v tok r1 r2 :
+    verify_key sig_valid json_parse k1 v tok = VOk r1 ->
+    verify_key sig_valid json_parse k2 v tok = VOk r2 -> r1 = r2.
+  Proof.
+    rewrite !verify_key_parse.
+    intros [sg1 [u1 [h1 [H1 _]]]] [sg2 [u2 [h2 [H2 _]]]]. congruence.
+  Qed.
+
+  Lemma verify_loop_spec keys v tok i r :
+    verify_loop sig_valid json_parse keys v tok i = VOk r <->
+    exists k, In k keys /\ kenabled k = true /\ verify_key sig_valid json_parse k v tok = VOk r.
+  Proof.
+    revert i. induction keys as [|k keys IH]; intros i; simpl.
+    - destruct i; split; try discriminate; intros [k [[] _]].
+    - destruct (kenabled k) eqn:Ek.
+      + destruct (verify_key sig_valid json_parse k v tok) as [r'| |] eqn:Ev.
+        * split.
+          -- intros H; inversion H; subst. exists k. auto.
+          -- intros [k' [[->|Hin] [Hen Hv]]]; [congruence|].
+             f_equal. eapply verify_key_deterministic; eauto.
+        * rewrite IH. split.
+          -- intros [k' [Hin H]]. exists k'. auto.
+          -- intros [k' [[->|Hin] [Hen Hv]]]; [congruence | exists k'; auto].
+        * rewrite IH. split.
+          -- intros [k' [Hin H]]. exists k'. auto.
+          -- intros [k' [[->|Hin] [Hen Hv]]]; [congruence | exists k'; auto].
+      + rewrite IH. split.
+        * intros [k' [Hin H]]. exists k'. auto.
+        * intros [k' [[->|Hin] [Hen Hv]]]; [congruence | exists k'; auto].
+  Qed.
+
+  (* MAIN: the decision procedure accepts exactly the specification *)
+  Theorem verify_iff_accepts keys o tok r :
+    verify sig_valid json_parse keys o tok = Some (VOk r) <->
+    accepts sig_valid json_parse keys o tok r.
+  Proof.
+    unfold verify, accepts. split.
+    - destruct (new_validator o) as [v|] eqn:Ev; [|discriminate].
+      intros H. inversion H as [H1]. apply verify_loop_spec in H1.
+      destruct H1 as [k [Hin [Hen Hk]]]. apply verify_key_spec in Hk.
+      destruct Hk as [h [p [s [sg [hb [pb [hdr [-> [Hnh [Hnp [Hns [Hd [Hne [Eh [Ej [Ep [Ejp [Hs [Hh [Ht [Hpl Hv]]]]]]]]]]]]]]]]]]]]].
+      exists v. split; [apply new_validator_spec; auto|].
+      exists h, p, s, sg, hb, pb, hdr.
+      split; [reflexivity|]. do 9 (split; [assumption|]).
+      split; [exists k; auto|]. split; [assumption|]. split; assumption.
+    - intros [v [Ho [h [p [s [sg [hb [pb [hdr H]]]]]]]]].
+      destruct H as [-> [Hnh [Hnp [Hns [Hd [Hne [Eh [Ej [Ep [Ejp [Hk [Ht [Hpl Hv]]]]]]]]]]]]].
+      destruct Hk as [k [Hin [Hen [Hs Hh]]]].
+      apply new_validator_spec in Ho. rewrite Ho. f_equal.
+      apply verify_loop_spec. exists k. split; [assumption|]. split; [assumption|].
+      apply verify_key_spec. exists h, p, s, sg, hb, pb, hdr.
+      split; [reflexivity|]. do 9 (split; [assumption|]). split; [assumption|].
+      split; [assumption|]. split; [assumption|]. split; assumption.
+  Qed.
+
+  (* NewValidator refuses the options: nothing is verified *)
+  Lemma verify_badopts keys o tok :
+    verify sig_valid json_parse keys o tok = None <-> new_validator o = None.
+  Proof. unfold verify. destruct (new_validator o); split; congruence. Qed.
+
+  (* disabled keys never matter *)
+  Lemma verify_loop_enabled_only keys v tok r :
+    verify_loop sig_valid json_parse keys v tok false = VOk r <->
+    verify_loop sig_valid json_parse (filter kenabled keys) v tok false = VOk r.
+  Proof.
+    rewrite !verify_loop_spec. split; intros [k [Hin [Hen Hv]]]; exists k; repeat split; auto.
+    - apply filter_In. auto.
+    - apply filter_In in Hin. tauto.
+  Qed.
+End VerifyProofs.
+
+(* ================= boundaries ================= *)
+
+Lemma exp_boundary v pl t r : lookup s_exp pl = Some (JNum t r) ->
+  (ns t = o_now v - o_skew v -> exp_ok v pl = false)%Z
+  /\ (ns t = o_now v - o_skew v + 1 -> exp_ok v pl = true)%Z.
+Proof. intros H. unfold exp_ok. rewrite H. split; intros E; lia. Qed.
+
+Lemma nbf_boundary v pl t r : lookup s_nbf pl = Some (JNum t r) ->
+  (ns t = o_now v + o_skew v -> nbf_ok v pl = true)%Z
+  /\ (ns t = o_now v + o_skew v + 1 -> nbf_ok v pl = false)%Z.
+Proof. intros H. unfold nbf_ok. rewrite H. split; intros E; lia. Qed.
+
+Lemma iat_boundary v pl t r : o_iat_past v = true -> lookup s_iat pl = Some (JNum t r) ->
+  (ns t = o_now v + o_skew v -> iat_ok v pl = true)%Z
+  /\ (ns t = o_now v + o_skew v + 1 -> iat_ok v pl = false)%Z.
+Proof. intros P H. unfold iat_ok. rewrite P, H. split; intros E; lia. Qed.
+
+(* whole seconds: clock at second n, skew of s seconds *)
+Lemma exp_boundary_seconds v pl t r n s :
+  lookup s_exp pl = Some (JNum t r) -> o_now v = ns n -> o_skew v = ns s ->
+  (t = n - s -> exp_ok v pl = false)%Z /\ (t = n - s + 1 -> exp_ok v pl = true)%Z.
+Proof. intros H Hn Hs. unfold exp_ok. rewrite H, Hn, Hs. unfold ns. split; intros E; lia. Qed.
+
+Lemma nbf_boundary_seconds v pl t r n s :
+  lookup s_nbf pl = Some (JNum t r) -> o_now v = ns n -> o_skew v = ns s ->
+  (t = n + s -> nbf_ok v pl = true)%Z /\ (t = n + s + 1 -> nbf_ok v pl = false)%Z.
+Proof. intros H Hn Hs. unfold nbf_ok. rewrite H, Hn, Hs. unfold ns. split; intros E; lia. Qed.
+
+Lemma iat_boundary_seconds v pl t r n s :
+  o_iat_past v = true -> lookup s_iat pl = Some (JNum t r) -> o_now v = ns n -> o_skew v = ns s ->
+  (t = n + s -> iat_ok v pl = true)%Z /\ (t = n + s + 1 -> iat_ok v pl = false)%Z.
+Proof. intros P H Hn Hs. unfold iat_ok. rewrite P, H, Hn, Hs. unfold ns. split; intros E; lia. Qed.
+
+(* a failing time check rejects the token whatever the keys *)
+Lemma time_check_rejects sig_valid json_parse keys o v tok r :
+  new_validator o = Some v ->
+  verify sig_valid json_parse keys o tok = Some (VOk r) ->
+  exp_ok v (r_payload r) = true /\ nbf_ok v (r_payload r) = true /\ iat_ok v (r_payload r) = true.
+Proof.
+  intros Ho H. apply verify_iff_accepts in H. destruct H as [v' [Ho' [h [p [s [sg [hb [pb [hdr H]]]]]]]]].
+  apply new_validator_spec in Ho'. assert (v' = v) by congruence. subst v'.
+  destruct H as [_ [_ [_ [_ [_ [_ [_ [_ [_ [_ [_ [_ [Hpl Hv]]]]]]]]]]]]].
+  destruct Hv as [E1 [E2 [N1 [I1 _]]]].
+  rewrite (exp_ok_spec v _ Hpl), (nbf_ok_spec v _ Hpl), (iat_ok_spec v _ Hpl). auto.
+Qed.
+
+(* clock skew: NewValidator accepts exactly skews up to 10 minutes *)
+Lemma skew_limit o : (o_skew o > 600000000000)%Z -> new_validator o = None.
+Proof.
+  intros H. destruct (new_validator o) as [v|] eqn:E; auto.
+  apply new_validator_spec in E. destruct E as [_ [_ [_ [_ [S _]]]]]. unfold max_skew_ns in S. lia.
+Qed.
+
+(* ================= JWK export / import ================= *)
+
+Lemma jwk_key_header_rule k hdr : header_rule k hdr -> header_rule (jwk_key k) hdr.
+Proof.
+  unfold header_rule, jwk_key. intros [A [C K]].
+  destruct (kkid k) as [id|c|] eqn:E; simpl; rewrite ?E; auto.
+Qed.
+
+Theorem jwk_roundtrip_preserves sig_valid json_parse keys o tok r :
+  verify sig_valid json_parse keys o tok = Some (VOk r) ->
+  verify sig_valid json_parse (jwk_roundtrip keys) o tok = Some (VOk r).
+Proof.
+  rewrite !verify_iff_accepts. unfold accepts.
+  intros [v [Ho [h [p [s [sg [hb [pb [hdr H]]]]]]]]].
+  destruct H as [-> [Hnh [Hnp [Hns [Hd [Hne [Eh [Ej [Ep [Ejp [Hk [Ht [Hpl Hv]]]]]]]]]]]]].
+  destruct Hk as [k [Hin [Hen [Hs Hh]]]].
+  exists v. split; [assumption|]. exists h, p, s, sg, hb, pb, hdr.
+  split; [reflexivity|]. do 9 (split; [assumption|]).
+  split; [|split; [assumption|split; assumption]].
+  exists (jwk_key k). split.
+  - unfold jwk_roundtrip. apply in_map. apply filter_In. auto.
+  - split; [destruct (kkid k) eqn:E; unfold jwk_key; rewrite E; reflexivity|].
+    split; [destruct (kkid k) eqn:E; unfold jwk_key; rewrite E; exact Hs|].
+    apply jwk_key_header_rule. assumption.
+Qed.
+
+(* ================= NewRawJWT and the encode -> verify round trip ================= *)
+
+Lemma new_raw_jwt_payload_rule o r :
+  new_raw_jwt o = Some r -> r_typ r = ro_typ o /\ payload_rule (r_payload r).
+Proof.
+  unfold new_raw_jwt. destruct (create_payload o) as [p|]; [|discriminate].
+  destruct (validate_payload p) eqn:E; [|discriminate].
+  intros H; inversion H; subst. simpl. split; auto. apply validate_payload_spec. auto.
+Qed.
+
+Lemma encode_header_rule k r hdr pl :
+  encode_parts k r = Some (hdr, pl) ->
+  pl = r_payload r /\ header_rule k hdr /\ typ_rule hdr (r_typ r)
+  /\ json_utf8 (JObj hdr) = true /\ json_utf8 (JObj pl) = true.
+Proof.
+  unfold encode_parts, header_rule, typ_rule.
+  destruct (kkid k) as [id|c|] eqn:Ek; simpl kid_args; cbv iota beta;
+    match goal with |- context [if ?c then _ else _] => destruct c eqn:Eu end; try discriminate;
+      intros H; inversion H; subst; clear H; apply andb_true_iff in Eu; destruct Eu as [U1 U2];
+        (split; [reflexivity|]); (split; [|split; [|split; assumption]]);
+          destruct (r_typ r) as [t|]; simpl; auto.
+Qed.
+
+Section RoundTrip.
+  Variable sig_valid : N -> bytes -> bytes -> bool.
+  Variable json_parse : bytes -> option fields.
+  Variable json_print : fields -> bytes.
+  Variable sign : N -> bytes -> bytes.
+
+  (* the laws are only needed for the header, the payload and the signed text
+     of the token at hand *)
+  Theorem encode_verify_roundtrip_local keys k o v ro r hdr pl tok :
+    new_raw_jwt ro = Some r ->
+    In k keys -> kenabled k = true ->
+    encode_parts k r = Some (hdr, pl) ->
+    encode json_print sign k r = Some tok ->
+    json_parse (json_print hdr) = Some hdr -> json_parse (json_print pl) = Some pl ->
+    wfb (json_print hdr) -> wfb (json_print pl) ->
+    (forall m, wfb (sign (kref k) m) /\ sign (kref k) m <> [] /\ sig_valid (kref k) (sign (kref k) m) m = true) ->
+    new_validator o = Some v -> validate v r = true ->
+    verify sig_valid json_parse keys o tok = Some (VOk r).
+  Proof.
+    intros Hraw Hin Hen Ep Henc Ph Pp Wh Wp Hsign Ho Hval.
+    apply new_raw_jwt_payload_rule in Hraw. destruct Hraw as [_ Hpl].
+    unfold encode in Henc. rewrite Ep in Henc.
+    apply encode_header_rule in Ep. destruct Ep as [-> [Hh [Ht [U1 U2]]]].
+    inversion Henc as [Htok]. clear Henc.
+    apply verify_iff_accepts. exists v. split; [apply new_validator_spec; assumption|].
+    set (h := b64_encode (json_print hdr)). set (p := b64_encode (json_print (r_payload r))).
+    destruct (Hsign (h ++ [dot] ++ p)) as [Sw [Sn Sv]].
+    exists h, p, (b64_encode (sign (kref k) (h ++ [dot] ++ p))), (sign (kref k) (h ++ [dot] ++ p)),
+      (json_print hdr), (json_print (r_payload r)), hdr.
+    split; [simpl; rewrite <- app_assoc; reflexivity|].
+    split; [apply b64_encode_nodot|]. split; [apply b64_encode_nodot|]. split; [apply b64_encode_nodot|].
+    split; [apply b64_decode_encode; assumption|]. split; [assumption|].
+    split; [apply b64_decode_encode; assumption|]. split; [assumption|].
+    split; [apply b64_decode_encode; assumption|]. split; [assumption|].
+    split; [exists k; repeat split; auto; try apply Hh|].
+    split; [assumption|]. split; [assumption|].
+    destruct r as [typ pl]. apply (validate_spec v typ pl Hpl). assumption.
+  Qed.
+
+  Hypothesis print_parse : forall f, json_utf8 (JObj f) = true -> json_parse (json_print f) = Some f.
+  Hypothesis print_wf : forall f, wfb (json_print f).
+  Hypothesis sign_verifies : forall kr m, sig_valid kr (sign kr m) m = true.
+  Hypothesis sign_wf : forall kr m, wfb (sign kr m).
+  Hypothesis sign_nonempty : forall kr m, sign kr m <> [].
+
+  Theorem encode_verify_roundtrip keys k o v ro r tok :
+    new_raw_jwt ro = Some r ->
+    In k keys -> kenabled k = true ->
+    encode json_print sign k r = Some tok ->
+    new_validator o = Some v -> validate v r = true ->
+    verify sig_valid json_parse keys o tok = Some (VOk r).
+  Proof.
+    intros Hraw Hin Hen Henc Ho Hval.
+    destruct (encode_parts k r) as [[hdr pl]|] eqn:Ep;
+      [|unfold encode in Henc; rewrite Ep in Henc; discriminate].
+    destruct (encode_header_rule _ _ _ _ Ep) as [_ [_ [_ [U1 U2]]]].
+    eapply encode_verify_roundtrip_local; eauto.
+  Qed.
+End RoundTrip.
+
+(* ================= NewRawJWT: every option becomes exactly its claim ================= *)
+
+Lemma lookup_set_field k k' v f :
+  lookup k (set_field k' v f) = if beq k k' then Some v else lookup k f.
+Proof.
+  induction f as [|[k0 v0] f IH]; simpl.
+  - destruct (beq k k'); reflexivity.
+  - destruct (beq k' k0) eqn:E0; simpl.
+    + apply beq_eq in E0. subst k0. destruct (beq k k'); reflexivity.
+    + destruct (beq k k0) eqn:E1.
+      * apply beq_eq in E1. subst k0. destruct (beq k k') eqn:E2; auto.
+        apply beq_eq in E2. subst. rewrite beq_refl in E0. discriminate.
+      * exact IH.
+Qed.
+
+Lemma lookup_set_opt k k' o f :
+  lookup k (set_opt k' o f) =
+  if beq k k' then match o with Some v => Some v | None => lookup k f end else lookup k f.
+Proof.
+  unfold set_opt. destruct o; [apply lookup_set_field|]. destruct (beq k k'); reflexivity.
+Qed.
+
+Definition set_all (cc p : fields) : fields :=
+  fold_left (fun p kv => set_field (fst kv) (snd kv) p) cc p.
+
+Lemma lookup_set_all_other k cc p : ~ In k (map fst cc) -> lookup k (set_all cc p) = lookup k p.
+Proof.
+  unfold set_all. revert p. induction cc as [|[k0 v0] cc IH]; simpl; intros p H; auto.
+  rewrite IH by tauto. rewrite lookup_set_field.
+  destruct (beq k k0) eqn:E; auto. apply beq_eq in E. subst. tauto.
+Qed.
+
+Lemma lookup_set_all_in k v cc p :
+  NoDup (map fst cc) -> In (k, v) cc -> lookup k (set_all cc p) = Some v.
+Proof.
+  unfold set_all. revert p. induction cc as [|[k0 v0] cc IH]; simpl; intros p N H; [tauto|].
+  inversion N as [|? ? Hn N']; subst. destruct H as [H|H].
+  - inversion H; subst. fold (set_all cc (set_field k v p)). rewrite lookup_set_all_other by assumption.
+    rewrite lookup_set_field, beq_refl. reflexivity.
+  - apply IH; assumption.
+Qed.
+
+Lemma not_registered_in cc k :
+  existsb (fun kv => is_registered (fst kv)) cc = false -> is_registered k = true -> ~ In k (map fst cc).
+Proof.
+  intros H R Hin. apply in_map_iff in Hin. destruct Hin as [[k0 v0] [E Hin]]. simpl in E. subst k0.
+  assert (X : existsb (fun kv => is_registered (fst kv)) cc = true).
+  { apply existsb_exists. exists (k, v0). auto. }
+  congruence.
+Qed.
+
+Theorem new_raw_jwt_claims o r :
+  new_raw_jwt o = Some r ->
+  let cc := match ro_custom o with None => [] | Some c => c end in
+  let pl := r_payload r in
+  r_typ r = ro_typ o
+  /\ lookup s_iss pl = jstr (ro_iss o) /\ lookup s_sub pl = jstr (ro_sub o) /\ lookup s_jti pl = jstr (ro_jti o)
+  /\ lookup s_iat pl = jtime (ro_iat o) /\ lookup s_exp pl = jtime (ro_exp o) /\ lookup s_nbf pl = jtime (ro_nbf o)
+  /\ lookup s_aud pl = match ro_auds o with
+                       | Some l => Some (JArr (map JStr l))
+                       | None => jstr (ro_aud o)
+                       end
+  /\ (forall k v, NoDup (map fst cc) -> In (k, v) cc -> lookup k pl = Some v)
+  /\ (forall k, is_registered k = false -> ~ In k (map fst cc) -> lookup k pl = None)
+  /\ (is_some (ro_exp o) = negb (ro_noexp o))
+  /\ payload_rule pl.
+Proof.
+  intros H cc pl. pose proof (new_raw_jwt_payload_rule _ _ H) as [Ht Hp].
+  unfold new_raw_jwt in H. destruct (create_payload o) as [p|] eqn:Ec; [|discriminate].
+  destruct (validate_payload p); [|discriminate]. inversion H; subst r. simpl in pl. subst pl.
+  unfold create_payload in Ec. fold cc in Ec.
+  destruct (existsb (fun kv => is_registered (fst kv)) cc) eqn:Er; [discriminate|].
+  destruct (negb (is_some (ro_exp o)) && negb (ro_noexp o)) eqn:E1; [discriminate|].
+  destruct (is_some (ro_exp o) && ro_noexp o) eqn:E2; [discriminate|].
+  destruct (is_some (ro_aud o) && is_some (ro_auds o)) eqn:E3; [discriminate|].
+  destruct (forallb (fun kv => json_utf8 (snd kv)) cc); [|discriminate].
+  inversion Ec as [Ep]. clear Ec.
+  match goal with |- context [fold_left ?f cc ?q] => change (fold_left f cc q) with (set_all cc q) end.
+  assert (R : forall k, is_registered k = true -> ~ In k (map (@fst bytes json) cc)) by (intros; eapply not_registered_in; eauto).
+  split; [assumption|].
+  repeat (split; [rewrite lookup_set_all_other by (apply R; reflexivity); rewrite !lookup_set_opt; simpl;
+                   try (destruct (ro_iss o), (ro_sub o), (ro_jti o); reflexivity);
+                   try (destruct (ro_iat o), (ro_exp o), (ro_nbf o); reflexivity)|]).
+  split.
+  { rewrite lookup_set_all_other by (apply R; reflexivity). rewrite !lookup_set_opt. simpl.
+    destruct (ro_auds o), (ro_aud o); simpl in *; try reflexivity; discriminate. }
+  split; [intros k v N Hin; apply lookup_set_all_in; assumption|].
+  split.
+  { intros k Hk Hn. rewrite lookup_set_all_other by assumption. rewrite !lookup_set_opt.
+    unfold is_registered, is_str_claim, is_time_claim in Hk.
+    repeat (apply orb_false_iff in Hk; destruct Hk as [Hk ?]).
+    repeat match goal with H : beq k _ = false |- _ => rewrite H; clear H end. reflexivity. }
+  split; [|rewrite <- Ep in Hp; exact Hp].
+  destruct (ro_exp o), (ro_noexp o); simpl in *; congruence.
+Qed.
